@@ -77,6 +77,8 @@ type Exec struct {
 	sampleBudget     int
 	ForkSites        map[string]int
 	loopBounds       map[string]int
+	stopAfterViol    int
+	interrupted      bool
 	PathSamples      []interface{}
 	SampleModels     [][]NondetVal
 }
@@ -210,6 +212,9 @@ func (ex *Exec) recordViolation(st *State, kind, msg string, ins ssa.Instruction
 	v := Violation{Kind: kind, Msg: msg, Where: where, Site: site, Harness: ex.harness, Notes: append([]string(nil), st.notes...)}
 	v.Model, v.HasModel = ex.smallModel(st, cond)
 	ex.Violations = append(ex.Violations, v)
+	if ex.stopAfterViol > 0 && len(ex.Violations) >= ex.stopAfterViol {
+		ex.stopped = true
+	}
 }
 
 // smallModel returns a model of the path condition (plus cond), preferring small
